@@ -6,5 +6,6 @@ CONSTANTS
   Grids <- Grids_t
   MaxT = 4
   MaxRoots = 1
+  KAll = TRUE
   Known <- Known_none
 INVARIANTS ContractHolds Emit
